@@ -16,6 +16,7 @@ INVARIANT TypeOK
 INVARIANT CacheSound
 INVARIANT NeverUnverified
 INVARIANT OfflineWhenCached
+INVARIANT ServedWhenCached
 INVARIANT RetryBound
 INVARIANT NoCrossTalk
 INVARIANT ProbeDone
